@@ -26,10 +26,73 @@ def one_sel(fn, focus):
     return {"levels": [{"fn": fn, "caps": [], "sibs": []}], "focus": {"var": focus, "as": focus}}
 
 
+def _blocks(stmts, out):
+    """every non-empty statement list of a function body (IR), the body itself included"""
+    if not stmts:
+        return out
+    out.append(stmts)
+    for st in stmts:
+        k = st[0]
+        subs = []
+        if k == "if":
+            subs = st[1:3]
+        elif k == "ifx":
+            subs = st[2:4]
+        elif k == "while":
+            subs = st[1:3]
+        elif k == "for":
+            subs = st[2:4]
+        elif k == "with":
+            subs = [st[2]]
+        elif k == "pick":
+            subs = st[1]
+        elif k == "try":
+            subs = [st[1]] + [h[2] for h in st[2]] + [st[3], st[4]]
+        for part in subs:
+            if isinstance(part, list):
+                _blocks(part, out)
+    return out
+
+
+def gen_declared(rng):
+    """A generated actor (sim/progen.py) into which bare declarations of fresh names are dropped
+    at random places -- inside loops, branches, handlers, with-blocks -- each followed, usually, by
+    a read of the declared name."""
+    from .. import ir, progen
+
+    program, _ = progen.gen_program(rng, want_gen=False)
+    fnir = [f for f in program["functions"] if f["name"] == "rf"][0]
+    decl = ["dx"] if rng.random() < 0.6 else ["dx", "dy"]
+    anns = {v: rng.choice(["int", '"@A"', '"@A & @B"']) for v in decl}
+    for v in decl:
+        for _ in range(rng.choice([1, 1, 2])):
+            blocks = _blocks(fnir["body"], [])
+            b = rng.choice(blocks)
+            # never after a statement that leaves the block
+            hi = len(b)
+            while hi > 0 and b[hi - 1][0] in ("ret", "raise", "break", "cont"):
+                hi -= 1
+            at = rng.randint(0, hi)
+            new = [["ann", v, anns[v], None]]
+            r = rng.random()
+            if r < 0.5:
+                new.append(["use", [v]])
+            elif r < 0.8:
+                new.append(["bind", rng.choice(progen.NAMES), ["add", ["var", v], ["val"]]])
+            b[at:at] = new
+    others = [n for n, f in ir.bound_names(fnir).items()
+              if f != {"decl"} and n not in fnir.get("free", ()) and n not in decl]
+    return program, decl, others
+
+
 def gen(rng, tier, quarantine=()):
     fns = [f for f in FN if f"no:{f}" not in quarantine]
     fn = rng.choice(fns)
     decl, others = FN[fn]
+    generated = None
+    if "no-generated-programs" not in quarantine and rng.random() < 0.35:
+        generated, decl, others = gen_declared(rng)
+        fn = "rf"
     ops = []
     n = 0
     # which of the declared variables an overlay / probe supplies
@@ -104,7 +167,10 @@ def gen(rng, tier, quarantine=()):
             ops.append({"op": "exit", "id": r["id"]})
             if not recs:
                 break
-    return {"prog": "decl", "ops": ops, "c16": True, "no_ref": True}
+    sc = {"prog": "decl", "ops": ops, "c16": True, "no_ref": True}
+    if generated:
+        sc.update({"prog": "generated", "program": generated, "prog_name": f"gen{rng.randrange(1 << 40):x}"})
+    return sc
 
 
 def run(scenario):
